@@ -112,7 +112,7 @@ type FFItem struct {
 	Server int    `json:"server,omitempty"` // which validator's response is the base (default 1)
 }
 
-// c12Bases: further (history length, serving validator) pairs whose anchors lie elsewhere: an early one (the joiner
+// c12Bases: further (history length, serving validator) pairs whose anchors lie elsewhere (presented to the joiner at both seams, to the lagging validator at the core seam): an early one (the joiner
 // accepted but not yet effective: the frame's peer-set history has a future entry), later ones (the joiner effective;
 // more blocks, other roots), served by other validators than the default.
 var c12Bases = [][2]int{{12, 0}, {16, 2}, {20, 0}, {24, 2}, {28, 0}, {34, 2}}
@@ -300,9 +300,7 @@ func init() {
 				if prop == "C12" {
 					plan.FFFrom = 2 // only node 1 answers (with the tampered response)
 				}
-				if prop == "C12" && it.Steps > 0 {
-					return // further bases are presented at the core seam only
-				}
+
 				err = c.FastForward(it.Target, plan)
 				if c.Panic != "" {
 					res.Classes["panic (C08's subject)"]++
@@ -457,6 +455,10 @@ func init() {
 					}
 					for from := 0; from < n2; from += chunk {
 						items = append(items, FFItem{Target: target, Level: "core", From: from, To: from + chunk, Steps: b[0], Server: b[1]})
+						if target == 4 {
+							// and through the joiner's own Node.fastForward (whoever answers may relay any validator's response)
+							items = append(items, FFItem{Target: target, Level: "node", From: from, To: from + chunk, Steps: b[0], Server: b[1]})
+						}
 					}
 				}
 			}
